@@ -154,7 +154,7 @@ func VerifC02_History() {
 	ctx := context.Background()
 	// (matcher set, alert, second alert): matching through equality, regex+negation,
 	// an OR-ed second set, a UTF-8 name, and one pair that does not match
-	pair := [][3]int{{0, 0, 1}, {1, 0, 1}, {2, 0, 1}, {3, 2, 0}, {0, 1, 0}, {2, 1, 2}}[vfChoice("pair", 4+2*vfTier())]
+	pair := [][3]int{{0, 0, 1}, {1, 0, 1}, {2, 0, 1}, {3, 2, 0}, {0, 1, 0}, {2, 1, 2}}[vfChoice("pair", 4)]
 	lset := hLsets02[pair[1]]
 	other := hLsets02[pair[2]]
 
@@ -176,7 +176,7 @@ func VerifC02_History() {
 		case 0: // nothing but the passage of time
 		case 1: // a second silence
 			s2 := &pb.Silence{
-				MatcherSets: hMatcherSets02(vfChoice("m2", 2+2*vfTier())),
+				MatcherSets: hMatcherSets02(vfChoice("m2", 2)),
 				StartsAt:    timestamppb.New(now.Add(vfSeconds("s2.startIn", 0, 3600))),
 				EndsAt:      timestamppb.New(now.Add(time.Hour + vfSeconds("s2.len", 0, 7200))),
 				Comment:     "two",
@@ -251,14 +251,14 @@ const clockEpoch02 = 946684800
 // verdict and the marker ids equal the direct evaluation of the stored silences again.
 //
 //vf:quick unwind=12 decisions=500 paths=600000 goroutines=6 preempt=1
-//vf:thorough unwind=16 decisions=700 paths=6000000 goroutines=8 preempt=2
+//vf:thorough unwind=16 decisions=700 paths=6000000 goroutines=8 preempt=1
 //vf:expect reach=muted reach=not-muted reach=verdict-changed
 func VerifC02_Concurrent() {
 	compat.InitFromFlags(promslog.NewNopLogger(), featurecontrol.NoopFlags{})
 	e := &hEnv02{s: hNew02(time.Hour), mk: marker.NewAlertMarker()}
 	e.sl = NewSilencer(e.s, promslog.NewNopLogger(), e.s.recorder)
 	ctx := context.Background()
-	pair := [][3]int{{0, 0, 1}, {2, 0, 1}, {1, 0, 1}, {3, 2, 0}}[vfChoice("pair", 2+2*vfTier())]
+	pair := [][3]int{{0, 0, 1}, {2, 0, 1}, {1, 0, 1}, {3, 2, 0}}[vfChoice("pair", 2+vfTier())]
 	lset := hLsets02[pair[1]]
 	now := vfNow()
 	s1 := &pb.Silence{
